@@ -151,3 +151,41 @@ package layout
 //@     step region_type_and_pages: len(regions) == prev(len(regions)) + 1 ==> regions[prev(len(regions))].Type == regionType
 //@   loop 2:
 //@     invariant (forall k int :: {group[k]} 0 <= k && k < $i ==> has(pageSet, group[k].PageIndex)) && (forall p int :: {has(pageSet, p)} has(pageSet, p) ==> exists k int :: 0 <= k && k < $i && group[k].PageIndex == p)
+
+// ---- C09: block detection stages ----
+//@ func (*BlockDetector) groupIntoLines results (res)
+//@   property C09
+//@   flags readonly, nosafety
+//@   ensures conserved: lsum(res, len(res)) == wsum(fragments, len(fragments))
+//@   loop 0:
+//@     invariant lsum(lines, len(lines)) + wsum(currentLine, len(currentLine)) == wsum(sorted, $i)
+//@   loop 1:
+//@     invariant lsum(lines, len(lines)) == entry(lsum(lines, len(lines))) && len(lines) == entry(len(lines))
+
+//@ func (*BlockDetector) finalizeBlock results (res)
+//@   property C09
+//@   flags nosafety
+//@   ensures collects_every_line: wsum(res.Fragments, len(res.Fragments)) == wsum(old(block.Fragments), len(old(block.Fragments))) + lsum(old(block.Lines), len(old(block.Lines)))
+//@   ensures lines_kept: same(res.Lines, old(block.Lines))
+//@   loop 0:
+//@     invariant same(block.Lines, old(block.Lines)) && wsum(block.Fragments, len(block.Fragments)) == wsum(old(block.Fragments), len(old(block.Fragments))) + lsum(block.Lines, $i)
+
+// every line goes into exactly one block
+//@ func (*BlockDetector) groupLinesIntoBlocks results (res)
+//@   property C09
+//@   flags nosafety
+//@   ensures conserved: blocksum(res, len(res)) == lsum(lines, len(lines))
+//@   loop 0:
+//@     invariant 1 <= i && i <= len(lines) && len(currentBlock.Fragments) == 0
+//@     invariant blocksum(blocks, len(blocks)) + lsum(currentBlock.Lines, len(currentBlock.Lines)) == lsum(lines, i)
+//@     decreases len(lines) - i
+
+// validation only drops blocks: what it keeps is what it was given, minus blocks without fragments or below the minimum size
+//@ func (*BlockDetector) validateBlocks results (res)
+//@   property C09
+//@   flags nosafety
+//@   ensures conserved: blocksum(res, len(res)) == blocksum(blocks, len(blocks))
+//@   loop 0:
+//@     invariant blocksum(valid, len(valid)) == blocksum(blocks, $i)
+//@   loop 1:
+//@     invariant blocksum(valid, len(valid)) == entry(blocksum(valid, len(valid))) && len(valid) == entry(len(valid))
